@@ -31,7 +31,33 @@ def area_world(rng, spherical=None, cross=None, nfeat=None, temp_allow=("uniform
     return w, sph
 
 
-def any_world(rng, spherical=None, cross=None, nfeat=None):
-    """worlds with every feature type (used by oracles that do not need the model).
-    Until the line features and plumes have generators this is the area-feature family."""
-    return area_world(rng, spherical, cross, nfeat)
+def any_world(rng, spherical=None, cross=None, nfeat=None, lines=0.4, allow_mass_conserving=True):
+    """worlds with every feature type: area features, plumes, subducting plates and faults"""
+    w, sph = area_world(rng, spherical, cross, nfeat)
+    g = Gen(rng)
+    n = len(w["features"])
+    out = []
+    k = 0
+    for f in w["features"]:
+        if rng.random() < lines:
+            out.append(g.line_feature("l%d" % k, spherical=sph, allow_mass_conserving=allow_mass_conserving))
+            k += 1
+        else:
+            out.append(f)
+    if not out and rng.random() < lines:
+        out.append(g.line_feature("l0", spherical=sph, allow_mass_conserving=allow_mass_conserving))
+    w["features"] = out
+    return w, sph
+
+
+def line_world(rng, kind=None, spherical=False, straight=None, uniform_sections=None, allow_mass_conserving=True, extra_area=0.3):
+    """one slab or fault (plus sometimes an area feature underneath)"""
+    g = Gen(rng)
+    w, sph = g.base_world(spherical, cross=False)
+    w.pop("force surface temperature", None)
+    f = g.line_feature("line", kind, sph, straight, uniform_sections, allow_mass_conserving)
+    if rng.random() < extra_area:
+        c = f["coordinates"][0]
+        w["features"].append(g.area_feature("under", sph, centre=(c[0], c[1]), size=(20 if sph else 8e5)))
+    w["features"].append(f)
+    return w, sph, f
